@@ -15,6 +15,7 @@ type sweepSpec struct {
 	StructLen int  // stratum B: bodies of <= StructLen lines over structLines
 	Mixed     bool // stratum C
 	FullHdr   int  // full header product for programs with <= FullHdr tokens in total
+	Flags     bool // entries may contain inline flag groups
 }
 
 type header struct{ Flags, Prefix, Suffix string }
@@ -73,18 +74,18 @@ func (s sweepSpec) programs(shard, n int, visit func(stratum string, p Prog)) (t
 		}
 		return fewHeaders
 	}
-	one := enumEntries(s.Tokens, s.One)
+	one := enumEntriesFlags(s.Tokens, s.One, s.Flags)
 	for _, e := range one {
 		emit("A1", [][]string{e}, hdrFor(len(e)))
 	}
-	two := enumEntries(s.Tokens, s.Two)
+	two := enumEntriesFlags(s.Tokens, s.Two, s.Flags)
 	for _, e1 := range two {
 		for _, e2 := range two {
 			emit("A2", [][]string{e1, e2}, hdrFor(len(e1)+len(e2)))
 		}
 	}
 	if s.Three {
-		single := enumEntries(s.Tokens, 1)
+		single := enumEntriesFlags(s.Tokens, 1, s.Flags)
 		for _, e1 := range single {
 			for _, e2 := range single {
 				for _, e3 := range single {
@@ -263,6 +264,9 @@ func shrinkProg(p Prog, valid func(Prog) bool, fails func(Prog) bool) Prog {
 	}
 }
 
+// shrinkAllowFlags: set by checks whose domain admits inline flag groups (C02)
+var shrinkAllowFlags bool
+
 // validProg: the program stays inside the explored domain (used by the shrinker).
 func validProg(p Prog) bool {
 	if len(p.Lines) == 0 {
@@ -288,7 +292,7 @@ func validProg(p Prog) bool {
 			depthCmd = depthCmd[:len(depthCmd)-1]
 		case strings.HasPrefix(s, "##!="):
 		default:
-			if !depthCmd[len(depthCmd)-1] && !validEntry(s) {
+			if !depthCmd[len(depthCmd)-1] && !validEntryFlags(s, shrinkAllowFlags) {
 				return false
 			}
 			if depthCmd[len(depthCmd)-1] && (s == "" || s[0] == ' ') {
